@@ -13,6 +13,7 @@ SPACES = {
     # sym: (alphabet, [(prefix, suffix_len_quick, suffix_len_thorough, alphabet override)])   - mirrors MC_PDFText / MC_AztecHL / MC_Code128 cfgs
     "pdf": ([65, 97, 49, 59, 44, 32, 128], [((), 6, 7, None), ((49, 49, 59, 59, 59), 7, 7, [97, 128, 59])]),
     "aztec": ([65, 97, 49, 32, 33, 64, 128, 44, 46, 58, 13, 10, 34], [((), 4, 5, None), ((33, 33, 33, 33, 33), 2, 2, None)]),
+    "dm": ([53, 65, 200, 181, 48], [((), 5, 7, None), ((65,) * 20, 3, 4, None)]),     # 181 = 0xB5: a byte above 127 whose low seven bits are a digit
     "c128": ([49, 55, 241, 242, 65, 97, 1, 200], [((), 5, 7, None)]),
 }
 
@@ -30,7 +31,7 @@ def conformance(chk, sym, quick, nshards=8, drift_cap=150):
     for k, (prefix, lq, lt, alt) in enumerate(spaces):
         out = os.path.join(chk.work, "enc-%s-%d.ndjson" % (sym, k))
         p = subprocess.run([binary, "-sym", sym, "-alphabet", ",".join(map(str, alt or alpha)), "-maxlen", str(lq if quick else lt),
-                            "-prefix", ",".join(map(str, prefix)), "-out", out], capture_output=True, text=True, timeout=3000)
+                            "-prefix", ",".join(map(str, prefix)), "-out", out] + (["-pad", str(7 + 30 * k)] if sym == "dm" else []), capture_output=True, text=True, timeout=3000)
         if p.returncode != 0:
             raise vlib.Inconclusive("encdump failed: " + p.stderr[-500:])
         evs += vlib.read_ndjson(out)
